@@ -489,6 +489,16 @@ def mtArgCheck (N initLen : Nat) : Option String :=
   else if initLen ≠ N then some "ERR:ValueError"
   else none
 
+/-- `polym_lcp_solver`'s handling of `starting_player_actions` (howson_lcp.py 123-135): `None` means
+    every player's first action; otherwise the `assert` demands one entry per player, each smaller
+    than the player's number of actions (`none` = `AssertionError`) -/
+def polymStart (nums : List Nat) (start : Option (List Nat)) : Option (List Nat) :=
+  match start with
+  | none => some (List.replicate nums.length 0)
+  | some st =>
+    if st.length = nums.length ∧ (List.range nums.length).all (fun q => decide (st.getD q 0 < nums.getD q 0))
+    then some st else none
+
 /-! ### line protocol -/
 
 local instance : Zero Float := ⟨0.0⟩
@@ -690,6 +700,17 @@ def handle (toks : List String) : String :=
       if pm.flatten.isEmpty then "bad-op"
       else showRat (hRange pm.flatten).1 ++ "," ++ showRat (hRange pm.flatten).2
     | none => "bad-op"
+  | "polymstart" :: r =>
+    match kvNats r "nums", kv r "start" with
+    | some nums, some st =>
+      if nums.isEmpty || nums.any (· == 0) then "bad-op" else
+      let arg : Option (Option (List Nat)) := if st = "none" then some none else (parseList? parseNat? st).map some
+      match arg with
+      | some a => match polymStart nums a with
+        | some e => "ok:" ++ showList toString e
+        | none => "ERR:AssertionError"
+      | none => "bad-op"
+    | _, _ => "bad-op"
   | "howf" :: r =>
     -- polym_lcp_solver, IEEE doubles
     match kvNats r "nums", kvNats r "start", kvFloatMat r "pm", kvInt r "maxiter", kvNat r "fuel" with
